@@ -168,3 +168,18 @@ macro_rules! harness {
         pub fn $name() $body
     };
 }
+
+/// `T::verif_any()` = `any::<T>()` for the scalar types, usable in generic model code.
+pub trait Any: Sized {
+    fn verif_any() -> Self;
+}
+macro_rules! any_impl {
+    ($($t:ty),*) => {$(
+        impl Any for $t {
+            fn verif_any() -> Self {
+                any::<$t>()
+            }
+        }
+    )*};
+}
+any_impl!(u8, u16, u32, u64, usize, i32, i64, bool);
